@@ -33,7 +33,7 @@ META = dict(
     ],
     technique="property-based testing of operation histories (Hypothesis) + bounded exhaustive enumeration "
     "of operation sequences, against a positional table model and fresh-object comparison",
-    engines=["hypothesis-runner"],
+    engines=["hypothesis-runner", "stateful-histories", "exhaustive-small-scope"],
     exhaustive_subchecks=["C06.exhaustive_ops"],
 )
 
